@@ -131,6 +131,20 @@ CLAIMED = {
             'algebraic oracle (operands are checked by C01/C02); reference '
             'margins give a second opinion on membership.',
             'DESIGN.md section 5, C08'),
+    'C16': ('exploration',
+            'Hypothesis property test over all region classes with one '
+            'generated perturbation per case (deep fingerprints decide "exactly '
+            'that field"); rule-based state machine with a Python-list model '
+            'for Regions lists',
+            'Random search over 21 region classes + pixel/sky compounds with '
+            'populated meta/visual x perturbation kinds (every parameter, meta '
+            'and visual entry set/removed/changed, class, vertex count, '
+            'sub-tolerance and supra-tolerance position changes, unit '
+            're-expression) x in-place mutations of everything reachable; list '
+            'histories of up to 25/40 steps over up to 6 aliased/derived lists.',
+            'Fingerprints of vf/fingerprint.py; astropy\'s own Quantity equality '
+            'defines which unit re-expressions are "equal".',
+            'DESIGN.md section 5, C16'),
 }
 
 PENDING_REASON = ('check designed (DESIGN.md section 5) but not yet built and '
